@@ -22,10 +22,6 @@ def jd(x):
     return json.dumps(x, separators=(",", ":"), sort_keys=True)
 
 
-def norm(x):
-    return json.loads(json.dumps(x))
-
-
 class CaseTimeout(BaseException):
     pass
 
@@ -34,28 +30,100 @@ def _alarm(signum, frame):
     raise CaseTimeout()
 
 
+def _np_default(o):
+    try:
+        import numpy as np
+        if isinstance(o, np.integer):
+            return int(o)
+        if isinstance(o, np.floating):
+            return float(o)
+    except Exception:
+        pass
+    raise TypeError(repr(o))
+
+
+def norm(x):
+    return json.loads(json.dumps(x, default=_np_default))
+
+
+_SLOT_OPS = {"slice": (1, 2), "fslice": (1, 2), "todir": (1, 2), "toundir": (1, 2), "snaprt": (1, 2), "intrt": (1, 2),
+             "nlrt": (1, 2), "nlrt2": (1, 2), "filert": (2, 3), "rsnap": (1,), "rint": (1,), "rkeys": (2,), "ptxt": (2,)}
+_WARM_OFF = 20
+
+
+def _shift_slots(line):
+    """warm-up copies of derived-graph queries use their own slots (k -> k+20 for k >= 1)"""
+    w = line.split()
+    op = w[0]
+    idx = _SLOT_OPS.get(op)
+    if idx is None:
+        idx = (1,) if len(w) > 1 and w[1].lstrip("-").isdigit() and op not in ("annot", "compact", "new") else ()
+    for i in idx:
+        if i < len(w) and w[i].isdigit() and int(w[i]) >= 1:
+            w[i] = str(int(w[i]) + _WARM_OFF)
+    return " ".join(w)
+
+
+def build_lines(prop, case):
+    """protocol lines of a case; with case['warm'] = k the property's own queries are also issued after the
+    first k operations (on separate slots), so that caches, memos and aliasing between a graph and a graph
+    derived from it have a chance to go stale before the judged queries run.  Returns (lines, keep, redump)
+    where keep = indices of the lines the judge sees and redump = [(warm dump index, final redump index)]."""
+    lines = prop.lines(case)
+    k = case.get("warm")
+    if not k or "ops" not in case or k >= len(case["ops"]):
+        pre = ["pollute %d" % case["pollute"]] if case.get("pollute") else []
+        return pre + lines, list(range(len(pre), len(pre) + len(lines))), []
+    prefix = dict(case); prefix["ops"] = case["ops"][:k]; prefix.pop("warm", None)
+    pl = prop.lines(prefix)
+    ok = getattr(prop, "warm_ok", None)
+    warm = [_shift_slots(l) for l in pl[1 + k:] if ok is None or ok(prefix, l)]
+    pre = ["pollute %d" % case["pollute"]] if case.get("pollute") else []
+    full = pre + lines[:1 + k] + warm + lines[1 + k:]
+    n0 = len(pre)
+    keep = list(range(n0, n0 + 1 + k)) + list(range(n0 + 1 + k + len(warm), len(full)))
+    redump = []
+    for j, l in enumerate(warm):
+        w = l.split()
+        if w[0] == "dump" and int(w[1]) >= _WARM_OFF:
+            redump.append((n0 + 1 + k + j, len(full)))
+            full.append(l)
+    return full, keep, redump
+
+
 def run_impl(prop, case):
     import impl, signal
-    lines = prop.lines(case)
+    full, keep, redump = build_lines(prop, case)
     signal.signal(signal.SIGALRM, _alarm)
     signal.alarm(int(os.environ.get("VERIF_CASE_TIMEOUT", str(getattr(prop, "case_timeout", 20)))))
     try:
-        outs = norm(impl.run_case(lines, case.get("ids", "int")))
+        allouts = norm(impl.run_case(full, case.get("ids", "int"), case.get("tnp", False)))
     finally:
         signal.alarm(0)
+    outs = [allouts[i] for i in keep]
+    lines = [full[i] for i in keep]
     var = None
     if hasattr(prop, "variants"):
         vc = prop.variants(case, outs)
         if vc is not None:
             vl = prop.lines(vc)
             var = (vc, vl, norm(impl.run_case(vl, case.get("ids", "int"))))
-    return lines, outs, var
+    extra = []
+    for (a, b) in redump:
+        if jd(allouts[a]) != jd(allouts[b]):
+            extra.append({"clause": prop.id + ".derived_graph_changed_later", "detail": {"line": full[a], "then": allouts[a], "later": allouts[b]}})
+    case_full = {"full": full, "allouts": allouts, "extra": extra, "keep": keep}
+    return lines, outs, var, case_full
 
 
-def judge(prop, case, outs, var):
+def judge(prop, case, outs, var, cf=None):
     if var is not None:
-        return prop.judge(case, outs, var[2], var[0])
-    return prop.judge(case, outs)
+        fails = prop.judge(case, outs, var[2], var[0])
+    else:
+        fails = prop.judge(case, outs)
+    if cf is not None:
+        fails = list(fails) + cf["extra"]
+    return fails
 
 
 def num_of(x):
@@ -93,8 +161,8 @@ def work(args):
     batch = []
     for case in chunk:
         try:
-            lines, outs, var = run_impl(prop, case)
-            fails = judge(prop, case, outs, var)
+            lines, outs, var, cf = run_impl(prop, case)
+            fails = judge(prop, case, outs, var, cf)
         except CaseTimeout:
             res["hist"]["skipped:case-timeout"] = res["hist"].get("skipped:case-timeout", 0) + 1
             continue
@@ -104,6 +172,8 @@ def work(args):
         res["n"] += 1
         src = case.get("src", "?")
         res["hist"][src] = res["hist"].get(src, 0) + 1
+        if case.get("warm"):
+            res["hist"]["with-warm-up-queries"] = res["hist"].get("with-warm-up-queries", 0) + 1
         for o in outs:
             if isinstance(o, str) and o.startswith("E:"):
                 res["hist"]["out:" + o] = res["hist"].get("out:" + o, 0) + 1
@@ -114,12 +184,11 @@ def work(args):
             pass
         if len(res["samples"]) < 2:
             res["samples"].append({"case": case, "lines": lines[:12]})
-        batch.append((case, lines, outs, var, fails))
-    mouts_all = None
+        batch.append((case, lines, outs, var, fails, cf))
     if use_model and batch:
         blocks = []
-        for case, lines, outs, var, fails in batch:
-            blocks.append(lines)
+        for case, lines, outs, var, fails, cf in batch:
+            blocks.append(cf["full"])
             if var is not None:
                 blocks.append(var[1])
         try:
@@ -129,22 +198,27 @@ def work(args):
             mres = None
         if mres is not None:
             k = 0
-            for case, lines, outs, var, fails in batch:
-                mo = mres[k]; k += 1
+            for case, lines, outs, var, fails, cf in batch:
+                mo_full = mres[k]; k += 1
                 mvar = None
                 if var is not None:
                     mvar = (var[0], var[1], mres[k]); k += 1
                 skip = getattr(prop, "model_skip", None)
-                dis = [i for i, (a, b) in enumerate(zip(outs, mo)) if not same(a, b) and not (skip and skip(lines[i]))]
-                if len(outs) != len(mo):
-                    dis.append(min(len(outs), len(mo)))
+                full, allouts = cf["full"], cf["allouts"]
+
+                def skipped(l):
+                    return l.startswith("pollute") or (skip and skip(l))
+                dis = [i for i, (a, b) in enumerate(zip(allouts, mo_full)) if not skipped(full[i]) and not same(a, b)]
+                if len(allouts) != len(mo_full):
+                    dis.append(min(len(allouts), len(mo_full)))
                 if dis:
                     i = dis[0]
-                    res["disagree"].append({"case": case, "line_index": i, "line": lines[i] if i < len(lines) else None,
-                                            "impl": outs[i] if i < len(outs) else None, "model": mo[i] if i < len(mo) else None,
+                    res["disagree"].append({"case": case, "line_index": i, "line": full[i] if i < len(full) else None,
+                                            "impl": allouts[i] if i < len(allouts) else None, "model": mo_full[i] if i < len(mo_full) else None,
                                             "impl_fails": fails[:3]})
+                mo = [mo_full[i] for i in cf["keep"]] if len(mo_full) == len(full) else mo_full
                 try:
-                    mf = [] if (skip and any(skip(l) for l in lines)) else judge(prop, case, mo, mvar)
+                    mf = [] if any(skipped(l) for l in lines) else judge(prop, case, mo, mvar)
                 except Exception:
                     mf = [{"clause": "model-judge-crash", "detail": traceback.format_exc()[-400:]}]
                 fails_tagged = []
@@ -156,7 +230,7 @@ def work(args):
                 if mf:
                     res["model_fails"].append({"case": case, "fails": mf[:3]})
     else:
-        for case, lines, outs, var, fails in batch:
+        for case, lines, outs, var, fails, cf in batch:
             if fails:
                 res["fails"].append({"case": case, "fails": [dict(f, agrees_with_model=None) for f in fails], "lines": lines})
     res["nontrivial"] = list(res["nontrivial"])
@@ -173,12 +247,30 @@ def chunks(it, size):
         yield buf
 
 
+def decorate(prop, it, rng2):
+    """call-history variations applied uniformly to the cases of every property: the property's own queries
+    issued once in the middle of the history (warm), a prelude that exercises unrelated graphs / readers /
+    writers in the same process (pollute: process-level state must not leak), numpy integer timestamps"""
+    no_warm = getattr(prop, "no_warm", False)
+    p_pol = getattr(prop, "pollute_rate", 0.03)
+    for case in it:
+        if isinstance(case, dict) and "ops" in case and case.get("src") not in ("corpus-long",):
+            n = len(case["ops"])
+            if not no_warm and n >= 2 and rng2.random() < 0.3:
+                case["warm"] = rng2.randint(1, n - 1)
+            if rng2.random() < 0.04 and case.get("ids", "int") == "int":
+                case["tnp"] = True
+        if isinstance(case, dict) and rng2.random() < p_pol:
+            case["pollute"] = rng2.randint(1, 3)
+        yield case
+
+
 def explore(pid, tier, seed, use_model, case_iter=None, pool=None):
     prop = registry.get(pid)
     if hasattr(prop, "custom_run") and case_iter is None:
         return prop.custom_run(tier, seed)
     rng = random.Random(("%s-%s-%d" % (pid, tier, seed)))
-    it = case_iter if case_iter is not None else prop.cases(tier, rng)
+    it = case_iter if case_iter is not None else decorate(prop, prop.cases(tier, rng), random.Random("deco-%s-%s-%d" % (pid, tier, seed)))
     size = getattr(prop, "chunk", 200)
     tot = {"n": 0, "nontrivial": set(), "fails": [], "disagree": [], "model_fails": [], "hist": {}, "samples": [], "internal": []}
     jobs = ((pid, ch, use_model) for ch in chunks(it, size))
@@ -204,8 +296,8 @@ def explore(pid, tier, seed, use_model, case_iter=None, pool=None):
 
 def still_fails(prop, case, clause, kf):
     try:
-        lines, outs, var = run_impl(prop, case)
-        fails = judge(prop, case, outs, var)
+        lines, outs, var, cf = run_impl(prop, case)
+        fails = judge(prop, case, outs, var, cf)
     except Exception:
         return False
     for f in fails:
@@ -226,6 +318,10 @@ def shrink(prop, case, clause, kf):
         for i in range(len(cur["ops"])):
             budget -= 1
             cand = dict(cur); cand["ops"] = cur["ops"][:i] + cur["ops"][i + 1:]
+            if cur.get("warm"):
+                cand["warm"] = cur["warm"] - 1 if i < cur["warm"] else cur["warm"]
+                if cand["warm"] <= 0 or cand["warm"] >= len(cand["ops"]):
+                    cand.pop("warm")
             if still_fails(prop, cand, clause, kf):
                 cur = cand; changed = True
                 break
@@ -250,8 +346,8 @@ def replay(pid, path):
         print(json.dumps(r, indent=1)[:3000])
         return 0
     case = r["case"]
-    lines, outs, var = run_impl(prop, case)
-    fails = judge(prop, case, outs, var)
+    lines, outs, var, cf = run_impl(prop, case)
+    fails = judge(prop, case, outs, var, cf)
     print("case:", jd(case))
     for l, o in zip(lines, outs):
         print("  > %s\n  < %s" % (l, jd(o)[:600]))
@@ -322,10 +418,14 @@ def main():
     if violations:
         case, f = min(violations, key=lambda cf: len(jd(cf[0])))
         small = shrink(prop, case, f["clause"], kf)
-        lines, outs, var = run_impl(prop, small)
-        fs = [x for x in judge(prop, small, outs, var) if classify.known(pid, small, x, kf) is None]
-        replay_path = write_replay(pid, {"property": pid, "kind": "failing-input", "case": small, "lines": lines,
-                                         "failures": fs[:5], "observed": outs, "broken": broken})
+        lines, outs, var, cf = run_impl(prop, small)
+        fs = [x for x in judge(prop, small, outs, var, cf) if classify.known(pid, small, x, kf) is None]
+        if not fs:      # shrinking lost the failure (e.g. it depends on process state): keep the original case
+            small = case
+            lines, outs, var, cf = run_impl(prop, small)
+            fs = [x for x in judge(prop, small, outs, var, cf) if classify.known(pid, small, x, kf) is None] or [f]
+        replay_path = write_replay(pid, {"property": pid, "kind": "failing-input", "case": small, "lines": cf["full"],
+                                         "failures": fs[:5], "observed": cf["allouts"], "broken": broken})
         rc = 1
     elif broken:
         # extended search before giving up on a failing input
@@ -337,8 +437,8 @@ def main():
                 if v2:
                     case, f = min(v2, key=lambda cf: len(jd(cf[0])))
                     small = shrink(prop, case, f["clause"], kf)
-                    lines, outs, var = run_impl(prop, small)
-                    fs = judge(prop, small, outs, var)
+                    lines, outs, var, cf = run_impl(prop, small)
+                    fs = judge(prop, small, outs, var, cf)
                     replay_path = write_replay(pid, {"property": pid, "kind": "failing-input", "case": small, "lines": lines,
                                                      "failures": fs[:5], "observed": outs, "broken": broken})
                     break
